@@ -29,7 +29,9 @@ TNext ==
      \/ Ev.ev = "fresh" /\ PFresh(Ev)
      \/ Ev.ev = "retry" /\ PRetry(Ev)
      \/ Ev.ev = "follow" /\ PFollow(Ev)
+     \/ Ev.ev = "fault" /\ PFault(Ev)
+     \/ Ev.ev = "fretry" /\ PRetry(Ev)
      \/ Ev.ev = "end" /\ PEnd(Ev) /\ PrintT(<<"DONE", Ev.trace>>)
-     \/ Ev.ev \notin {"reset", "sys", "fresh", "retry", "follow", "end"} /\ PUnknown
+     \/ Ev.ev \notin {"reset", "sys", "fresh", "retry", "follow", "fault", "fretry", "end"} /\ PUnknown
 TSpec == TInit /\ [][TNext]_<<pvars, l>>
 =============================================================================
